@@ -65,6 +65,11 @@ def gen_nesting(rng):
         if name == 'preamble':
             op['text'] = text(eff)
 
+            if e and rng.chance(0.02):
+                # far beyond any block size the writer may encode in
+                op['text'] = op['text'] + '\n' + \
+                    (text(eff) + '\n') * rng.choice([9000, 14000])
+
             if rng.chance(0.5):
                 op['indent'] = rng.choice([0, 2, 4])
         elif name == 'meta':
